@@ -11,10 +11,25 @@ TRUSTED_BASE = [
 PDU_RULE = ("type-directed generation from the real Go struct types by reflection (all 33 PDU types round-robin, then random), "
             "sizes biased to 0/1/139-141/254-256/4060-4120/58000, every chunking kind (whole, 1-octet, uniform, single split, cyclic sizes)")
 
+HOOK_COMMITS = []
+
+PDU_NOTE = ("Theorems are about the Lean model of package pdu's codec (Smpp/Model/Pdu.lean) over the REGENERATED struct layouts; "
+            "the model is tied to /repo by the correspondence run (sampled) and by decide-checked expectations on regenerated facts "
+            "(layout shapes, registry, read primitives, panic-site and make-site inventories, guards). Trusted: Lean kernel, the extractor, "
+            "the harness, and the models of bufio/bytes/io/binary (exact reads over the private frame copy).")
+
 PROPS = {
-    "C01": {"rule": PDU_RULE + "; op rt = Marshal then ReadPDU under a chunking, oracle compares every field"},
-    "C03": {"rule": PDU_RULE + "; op stream = repeated ReadPDU over concatenated valid frames, truncations at random and at every cut of short streams, every single split point and uniform size 1..32"},
-    "C04": {"rule": "unstructured octets, valid header of every registered id + arbitrary body, mutated valid frames (bit flips, truncation, length edits, duplicated slices), all chunkings"},
-    "C12": {"rule": PDU_RULE + "; unconstrained domain: sequence over the int32 range incl. 0/-1/min, any status, containers 254-300, TLV 65534-65536, UDH element 250-300, message 141-300; destination writer counts Write calls"},
-    "C13": {"rule": "reenc = ReadPDU -> Marshal -> ReadPDU -> Marshal x8 on valid and mutated frames of every type; det = 16 re-marshals of values with 2..50 TLVs after rebuilding the maps"},
+    "C01": {"rule": PDU_RULE + "; op rt = Marshal then ReadPDU under a chunking, oracle compares every field",
+            "level_text": "Round trip proved in Lean for every layout passing LayoutOK (decided on the regenerated 33 layouts), every representable value of unbounded size and every fragmentation (C01_roundtrip_partial, C01_fields_equal); the full-strength statement is refuted by a proved witness for the one known finding (QuerySMResp.ErrorCode).",
+            "level_note": PDU_NOTE + " Partial: fields the reflection walk skips must be zero (known finding C01-queryresp-errorcode)."},
+    "C03": {"level_text": "Fragmentation independence of one and of repeated ReadPDU calls, exact consumption for every acceptable header (decodable, undecodable or unknown id), in-order delivery then EOF for any frame sequence, and error on every truncation inside a PDU are Lean theorems over arbitrary chunk lists.",
+            "level_note": PDU_NOTE + " The io.Reader is modelled as a list of chunks (a Read returns at most the head chunk); that io.ReadFull/binary.Read behave as the loop over Read is trusted and checked by the correspondence run under every chunking kind.",
+            "rule": PDU_RULE + "; op stream = repeated ReadPDU over concatenated valid frames, truncations at random and at every cut of short streams, every single split point and uniform size 1..32"},
+    "C04": {"level_text": "Consumed <= 65536, error-or-registered-PDU classification, early rejection of bad lengths before any allocation and the allocation log bound are Lean theorems for every byte string and fragmentation; totality is Lean's own totality of the model plus the regenerated panic-site inventory.",
+            "level_note": PDU_NOTE + " Partial: real heap bytes and running time of the Go process are not carried by the model (the model's allocation log is); panic freedom of the Go code itself rests on the inventory + correspondence on hostile input.",
+            "rule": "unstructured octets, valid header of every registered id + arbitrary body, mutated valid frames (bit flips, truncation, length edits, duplicated slices), all chunkings"},
+    "C12": {"level_text": "For every layout and every value with no domain restriction: Marshal's model never reaches the panic outcome, success writes exactly one frame whose first four octets state its size, failure writes nothing (Lean theorems); single write site and guards are regenerated facts.",
+            "level_note": PDU_NOTE,
+            "rule": PDU_RULE + "; unconstrained domain: sequence over the int32 range incl. 0/-1/min, any status, containers 254-300, TLV 65534-65536, UDH element 250-300, message 141-300; destination writer counts Write calls"},
+    "C13": {"claimed": False, "rule": "reenc = ReadPDU -> Marshal -> ReadPDU -> Marshal x8 on valid and mutated frames of every type; det = 16 re-marshals of values with 2..50 TLVs after rebuilding the maps"},
 }
